@@ -10,6 +10,7 @@ import (
 	"strings"
 
 	"verif/checker/core"
+	"verif/checker/flow"
 
 	"golang.org/x/tools/go/packages"
 )
@@ -48,7 +49,10 @@ func c06(p *core.Program, r *core.Report) {
 	r.Rule("R3", "constant-index guards: a constant index or constant-bound slice of an externally supplied []byte (a []byte parameter, a range value over request views, or the result of ReadAll) is preceded in the same function by a test of that slice's length, or every static caller tests the length before the call")
 	r.Rule("R4", "nil-contradiction in message handling: in Server.receiveMessage every result of holder.Index/holder.Field is compared with nil before it is used (most cases do; the ones that did not crashed on messages for unknown schema)")
 	r.Rule("R5", "locks released on reject: every Lock/RLock of a fragment taken in a function that reaches a decoder is released by defer (so a recovered panic leaves no lock held)")
-	r.NotDecided = "bounds of variable offsets and counts taken from the payload (the roaring iterators' arithmetic), hangs and allocation blow-ups, that a rejected multi-container import leaves no partial change (the source itself notes it may)"
+	r.Rule("R7", "payload extents are checked before input is reinterpreted: in package roaring every cast unsafe.Pointer(&data[off]) of a byte slice on the decode path is reached only on paths that passed a comparison between len(data) and an extent -- a sum that contains the offset (off + size) -- so neither the cast nor the unchecked slice built from it can reach past the data; a test of the bare offset does not count")
+	r.Rule("R8", "sizes computed from input counts do not wrap: on the decode path a product or sum of an input count that is compared with len(data) is computed in 64 bits (or in int after widening), never in the count's own 16- or 32-bit type")
+	c06Extents(p, r)
+	r.NotDecided = "that counts inside the payload are consistent with the payload itself (a cardinality that disagrees with the runs), that a rejected multi-container import leaves no partial change (the source itself notes it may)"
 	pk, rp, pp, gp := p.Pkg(""), p.Pkg("roaring"), p.Pkg("encoding/proto"), p.Pkg("gossip")
 	if pk == nil || rp == nil || pp == nil || gp == nil {
 		r.Undecide("R1", "packages", "", "pilosa/roaring/encoding/proto/gossip not all loaded")
@@ -568,10 +572,30 @@ func c06TypeSwitches(p *core.Program, r *core.Report, rp *packages.Package) {
 				if conv, ok := m.(*ast.CallExpr); ok && len(conv.Args) == 1 {
 					if tv, ok := info.Types[conv.Fun]; ok && tv.IsType() {
 						if bt, ok := tv.Type.Underlying().(*types.Basic); ok && bt.Kind() == types.Uint8 {
-							if inner, ok := ast.Unparen(conv.Args[0]).(*ast.CallExpr); ok {
-								if fn := core.CalleeOf(info, inner); fn != nil && fn.Pkg() != nil && fn.Pkg().Path() == "encoding/binary" && fn.Name() == "Uint16" {
-									readsTypeByte = true
+							isU16 := func(e ast.Expr) bool {
+								inner, ok := ast.Unparen(e).(*ast.CallExpr)
+								if !ok {
+									return false
 								}
+								fn := core.CalleeOf(info, inner)
+								return fn != nil && fn.Pkg() != nil && fn.Pkg().Path() == "encoding/binary" && fn.Name() == "Uint16"
+							}
+							if isU16(conv.Args[0]) {
+								readsTypeByte = true
+							}
+							// or a local that holds such a read
+							if id, ok := ast.Unparen(conv.Args[0]).(*ast.Ident); ok {
+								o := info.ObjectOf(id)
+								ast.Inspect(fd.Body, func(k ast.Node) bool {
+									if as, ok := k.(*ast.AssignStmt); ok && len(as.Lhs) == len(as.Rhs) {
+										for i, l := range as.Lhs {
+											if lid, ok := ast.Unparen(l).(*ast.Ident); ok && info.ObjectOf(lid) == o && isU16(as.Rhs[i]) {
+												readsTypeByte = true
+											}
+										}
+									}
+									return true
+								})
 							}
 						}
 					}
@@ -891,4 +915,228 @@ func boolToInt(b bool) int64 {
 		return 1
 	}
 	return 0
+}
+
+// c06Extents: R7 and R8.
+func c06Extents(p *core.Program, r *core.Report) {
+	rp := p.Pkg("roaring")
+	if rp == nil {
+		r.Undecide("R7", "package roaring", "", "not loaded")
+		return
+	}
+	info := rp.TypesInfo
+	decode := c06RoaringDecodePath(rp)
+	isByteSlice := func(t types.Type) bool {
+		sl, ok := t.Underlying().(*types.Slice)
+		if !ok {
+			return false
+		}
+		b, ok := sl.Elem().Underlying().(*types.Basic)
+		return ok && b.Kind() == types.Uint8
+	}
+	// objects mentioned by an expression (identifiers and selected fields)
+	objsOf := func(e ast.Expr) map[types.Object]bool {
+		out := map[types.Object]bool{}
+		ast.Inspect(e, func(n ast.Node) bool {
+			switch x := n.(type) {
+			case *ast.SelectorExpr:
+				// a field is identified by the field, not by the variable holding the struct
+				if sel := info.Selections[x]; sel != nil && sel.Kind() == types.FieldVal {
+					out[sel.Obj()] = true
+					return false
+				}
+			case *ast.Ident:
+				if o := info.ObjectOf(x); o != nil {
+					if _, isVar := o.(*types.Var); isVar {
+						out[o] = true
+					}
+				}
+			}
+			return true
+		})
+		return out
+	}
+	sliceKey := func(e ast.Expr) string { return types.ExprString(ast.Unparen(e)) }
+	nSites := 0
+	for _, fd := range core.AllFuncDecls(rp) {
+		if fd.Body == nil || !decode[core.FuncName(fd)] {
+			continue
+		}
+		// input cast sites of this function
+		type site struct {
+			call  *ast.CallExpr
+			slice string
+			offs  map[types.Object]bool
+			bit   flow.State
+		}
+		var sites []*site
+		ast.Inspect(fd.Body, func(n ast.Node) bool {
+			c, ok := n.(*ast.CallExpr)
+			if !ok || len(c.Args) != 1 {
+				return true
+			}
+			tv, ok := info.Types[c.Fun]
+			if !ok || !tv.IsType() {
+				return true
+			}
+			if b, ok := tv.Type.Underlying().(*types.Basic); !ok || b.Kind() != types.UnsafePointer {
+				return true
+			}
+			ue, ok := ast.Unparen(c.Args[0]).(*ast.UnaryExpr)
+			if !ok || ue.Op != token.AND {
+				return true
+			}
+			ix, ok := ast.Unparen(ue.X).(*ast.IndexExpr)
+			if !ok || !isByteSlice(info.TypeOf(ix.X)) {
+				return true
+			}
+			if len(sites) >= 60 {
+				return true
+			}
+			sites = append(sites, &site{call: c, slice: sliceKey(ix.X), offs: objsOf(ix.Index), bit: 1 << uint(len(sites))})
+			return true
+		})
+		if len(sites) == 0 {
+			continue
+		}
+		bad := map[*site]bool{}
+		h := flow.Hooks{Info: info, Conversions: true}
+		h.Refine = func(cond ast.Expr, taken bool, s flow.State) (flow.State, bool) {
+			be, ok := ast.Unparen(cond).(*ast.BinaryExpr)
+			if !ok {
+				return s, true
+			}
+			switch be.Op {
+			case token.LSS, token.LEQ, token.GTR, token.GEQ:
+			default:
+				return s, true
+			}
+			for _, pair := range [][2]ast.Expr{{be.X, be.Y}, {be.Y, be.X}} {
+				// one side mentions len(<slice>)
+				lenOf := ""
+				ast.Inspect(pair[0], func(n ast.Node) bool {
+					if c, ok := n.(*ast.CallExpr); ok && core.BuiltinName(info, c) == "len" && len(c.Args) == 1 {
+						lenOf = sliceKey(c.Args[0])
+					}
+					return true
+				})
+				if lenOf == "" {
+					continue
+				}
+				// the other side contains a sum mentioning the offset
+				for _, st := range sites {
+					if st.slice != lenOf {
+						continue
+					}
+					isExtent := false
+					ast.Inspect(pair[1], func(n ast.Node) bool {
+						if add, ok := n.(*ast.BinaryExpr); ok && add.Op == token.ADD {
+							for o := range objsOf(add) {
+								if st.offs[o] {
+									isExtent = true
+								}
+							}
+						}
+						return true
+					})
+					// the len side itself may carry the sum: len(data) < pos+n
+					if !isExtent {
+						continue
+					}
+					s |= st.bit
+				}
+			}
+			return s, true
+		}
+		h.Atom = func(n ast.Node, s flow.State) []flow.State {
+			if c, ok := n.(*ast.CallExpr); ok {
+				for _, st := range sites {
+					if st.call == c && s&st.bit == 0 {
+						bad[st] = true
+					}
+				}
+			}
+			// an assignment to an offset variable invalidates earlier checks of it,
+			// unless it only moves past a checked extent (x += ...), which the
+			// next container's own check covers
+			if as, ok := n.(*ast.AssignStmt); ok && as.Tok == token.ASSIGN {
+				for _, l := range as.Lhs {
+					for o := range objsOf(l) {
+						for _, st := range sites {
+							if st.offs[o] {
+								s &^= st.bit
+							}
+						}
+					}
+				}
+			}
+			return []flow.State{s}
+		}
+		it := flow.Run(h, fd.Body, 0)
+		for _, st := range sites {
+			nSites++
+			construct := core.FuncName(fd) + " cast of &" + types.ExprString(ast.Unparen(st.call.Args[0]).(*ast.UnaryExpr).X)
+			switch {
+			case it.Unsupported != "":
+				r.Undecide("R7", construct, p.Pos(st.call.Pos()), it.Unsupported)
+			case bad[st]:
+				r.Violate("R7", construct, p.Pos(st.call.Pos()), "the input is reinterpreted at this offset on a path that did not compare an extent (offset + size) with len("+st.slice+"): a truncated or corrupted payload makes the index panic or the unchecked slice built from the cast read past the data")
+			default:
+				r.HoldAt("R7", construct, p.Pos(st.call.Pos()), "every path passed an extent check against len("+st.slice+")")
+			}
+		}
+	}
+	r.Floor("C06/R7 input casts on the decode path", nSites, 9)
+
+	// ---- R8: narrow arithmetic in comparisons with len(data)
+	nCmp := 0
+	for _, fd := range core.AllFuncDecls(rp) {
+		if fd.Body == nil || !decode[core.FuncName(fd)] {
+			continue
+		}
+		ast.Inspect(fd.Body, func(n ast.Node) bool {
+			be, ok := n.(*ast.BinaryExpr)
+			if !ok {
+				return true
+			}
+			switch be.Op {
+			case token.LSS, token.LEQ, token.GTR, token.GEQ:
+			default:
+				return true
+			}
+			mentionsLen := false
+			ast.Inspect(be, func(m ast.Node) bool {
+				if c, ok := m.(*ast.CallExpr); ok && core.BuiltinName(info, c) == "len" && len(c.Args) == 1 && isByteSlice(info.TypeOf(c.Args[0])) {
+					mentionsLen = true
+				}
+				return true
+			})
+			if !mentionsLen {
+				return true
+			}
+			nCmp++
+			// any product/sum inside the comparison whose type is narrower than 64 bits and that is not constant
+			narrow := ""
+			ast.Inspect(be, func(m ast.Node) bool {
+				ar, ok := m.(*ast.BinaryExpr)
+				if !ok || (ar.Op != token.MUL && ar.Op != token.ADD) {
+					return true
+				}
+				if tv, ok := info.Types[ar]; ok && tv.Value != nil {
+					return true
+				}
+				if b, ok := info.TypeOf(ar).Underlying().(*types.Basic); ok {
+					switch b.Kind() {
+					case types.Uint8, types.Uint16, types.Uint32, types.Int8, types.Int16, types.Int32:
+						narrow = types.ExprString(ar) + " (" + b.Name() + ")"
+					}
+				}
+				return true
+			})
+			construct := core.FuncName(fd) + " `" + types.ExprString(be) + "`"
+			r.Check(narrow == "", "R8", construct, p.Pos(be.Pos()), "sizes are computed in int/64 bits", "the size "+narrow+" is computed in a narrow type from input counts: a large count wraps around, the comparison passes, and the decoder allocates or reads for the unwrapped count")
+			return true
+		})
+	}
+	r.Floor("C06/R8 size comparisons on the decode path", nCmp, 10)
 }
